@@ -34,8 +34,12 @@ CONSTANTS Mode,        \* "enc" (encodings), "mut" (mutants), "thm" (theorems on
 Corpus == ndJsonDeserialize(IOEnv.CORPUS)
 
 (* ------------------------------ encoding -------------------------------- *)
-RECURSIVE Flat(_)
-Flat(ss) == IF ss = <<>> THEN <<>> ELSE ss[1] \o Flat(Tail(ss))
+(* concatenation of a sequence of sequences, by halving (shallow recursion, see RunChunks in OVMB.tla) *)
+RECURSIVE FlatR(_, _, _)
+FlatR(ss, lo, hi) ==
+  IF lo > hi THEN <<>> ELSE IF lo = hi THEN ss[lo]
+  ELSE LET mid == (lo + hi) \div 2 IN FlatR(ss, lo, mid) \o FlatR(ss, mid + 1, hi)
+Flat(ss) == FlatR(ss, 1, Len(ss))
 
 LE64(n) == LE(n, 8)
 PadTo8(n) == (8 - (n % 8)) % 8
